@@ -726,6 +726,40 @@ func authDirected(o authGenOpts) []Case {
 		g.add(d)
 		cases = append(cases, g.Case(fmt.Sprintf("directed:concurrent-first-requests cfg=%d", cfgKind)))
 	}
+	// 10. a repository that shares its name with a resource of another type that sorts just before it:
+	// the text asked of the token server names both, each under its own type
+	if o.prop == "C10" {
+		for _, pair := range [][2]string{{"registry:catalog:*", "repository:catalog:pull"}, {"artifact:foo:read", "repository:foo:pull,push"}, {"registry:catalog:* repository:b:pull", "repository:catalog:push"}} {
+			g := newAuthCaseGen(NewRNG(1), o)
+			g.cfg(0, 0)
+			a := mk(0, 0, pair[1], pair[0])
+			a.reg[0] = regReply{status: 401, hdrs: []string{bearerHdr(realm0, "svc0", pair[1])}}
+			allTok(a, grantTok("Tmixed", 3600))
+			g.add(a)
+			b := mk(0, 1, pair[1], "")
+			g.add(b)
+			cases = append(cases, g.Case("directed:same-name-two-types "+pair[0]))
+		}
+	}
+	// 9. real time, two overlapping requests: the registry sits on its answer to the first for 2.6 s
+	// while the second gets a 2 s token and completes; whatever the first then sends, it is not that token
+	if o.prop == "C10" {
+		for _, cfgKind := range []int{0, 2} {
+			g := newAuthCaseGen(NewRNG(1), o)
+			g.cfg(0, cfgKind)
+			g.lines = append(g.lines, "auth batch 2 hold 2600")
+			g.verb, g.step = "breq", 0
+			a := mk(0, 0, pull, "")
+			a.reg[0] = regReply{status: 401, hdrs: []string{bearerHdr(realm0, "svc0", pull)}}
+			allTok(a, grantTok("Theld", 3600))
+			g.add(a)
+			b := mk(0, 0, pull, "")
+			b.reg[0] = regReply{status: 401, hdrs: []string{bearerHdr(realm0, "svc0", pull)}}
+			allTok(b, grantTok("Tbrief", 2))
+			g.add(b)
+			cases = append(cases, g.Case(fmt.Sprintf("directed:held-challenge cfg=%d", cfgKind)))
+		}
+	}
 	// 7. real time: a 1 s token acquired after a long-lived one, used 1.3 s later
 	for _, cfgKind := range []int{0, 2} {
 		g := newAuthCaseGen(NewRNG(1), o)
